@@ -180,7 +180,7 @@ static bool run_loop(int c, Ref& r) {
   }
   return true;
 }
-static bool elementwise_model_case(int c) { return c <= 5 || (c >= 6 && c <= 9) || c == 10 || c == 39 || c == 40 || c == 41 || c == 30 || c == 28 || c == 42; }
+static bool elementwise_model_case(int c) { return c <= 5 || (c >= 6 && c <= 9) || c == 10 || c == 39 || c == 40 || c == 41 || c == 30 || c == 28 || c == 42 || (c >= 46 && c <= 48); }
 
 int main(int argc, char** argv) {
   int n = argc > 1 ? std::atoi(argv[1]) : 5, m = argc > 2 ? std::atoi(argv[2]) : 3;
